@@ -107,9 +107,15 @@ def _tag(f, tag):
 
 
 def _configs_for(self, tier):
+    """thorough tier: `thorough_configs` replaces the quick configurations, `thorough_extra` (larger extents) is added to them"""
     if tier == "thorough" and self.thorough_configs is not None:
         return list(self.thorough_configs())
-    return list(self.configs())
+    out = list(self.configs())
+    extra = self.holder.__dict__.get("thorough_extra")
+    if tier == "thorough" and extra is not None:
+        extra = extra.__func__ if isinstance(extra, staticmethod) else extra
+        out += [c for c in extra() if c not in out]
+    return out
 
 
 Contract.configs_for = _configs_for
